@@ -9,6 +9,10 @@ TRUST = ("Trusted base: rustc nightly's MIR construction and callee resolution, 
          "the behavioural remainder named in level_claimed.text is not decided (DESIGN.md §6).")
 
 CHECKS = {
+ "C08": dict(text="Static necessary conditions of structural consistency: the three e-node indexes (hashcons, class node table, usages) have one writer set and are updated together with one key; the union-find has no writer reachable from a &self API and path compression combines the old edge with the recursive result; slot set, group, union-find edge and re-queue change together; code under `if CHECKS` is ghost (no mutation, no value escaping), so assertion builds compute the same states; zero user-written unsafe; rebuild-before-return. Panic-freedom over all histories is NOT decided (census reported only).",
+             technique="custom MIR analysis: who-may-write role sets, must-pass-through, ghost-region effect analysis, unsafe census", ref="§4 C08"),
+ "C09": dict(text="Static necessary conditions of canonical insertion: class allocation is dominated by a failed hashcons lookup and the hit path passes the e-graph mutably to nothing; lookup/lookup_rec_expr and the other &self API are read-only (receiver types, call-graph closure, interior-mutability census); add and lookup key the hashcons through the same strong-shape function; the looked-up invocation is filtered by the class slot set with the right orientation; rebuild-before-return; the allocating path drops redundant slots. Canonicity of returned values is not decided.",
+             technique="custom MIR analysis: guard dominance, call-graph closure effect audit, sibling agreement on resolved callees, value dependence", ref="§4 C09"),
  "C02": dict(text="Static necessary conditions of congruence-closure completeness: inter-procedural work-list summaries prove that no public &mut entry point returns with a non-empty work-list in any feature configuration; the drain loop exits only on empty; every class-level change re-queues usages with Full; PendingType::merge truth table; remove/re-insert pairing and self-symmetry derivation in the work-list handler; orbit closure feeds the stored slot set (known finding F1). Does not decide that the fixpoint equals the congruence closure.",
              technique="custom MIR analysis: inter-procedural must-pass-through summaries (greatest fixpoint), path rules, exhaustive constant evaluation of a 2x2 match, value dependence", ref="§4 C02"),
  "C01": dict(text="Static necessary conditions of equality soundness, decided on the MIR of every feature configuration: eq() answers true only via the class-group membership test behind the id and slot-set guards on canonicalised operands; the slot-set writer's cap is an intersection; add-permutation / merge branch discipline; union-find edge orientation. Does not decide soundness of computed slot maps as values.",
